@@ -1,5 +1,15 @@
-from props.common import run_bounded
+from props.common import run_bounded, verify_keys
+
+KEYS = ['parso.tree.Leaf.get_code', 'parso.tree.BaseNode.get_code', 'parso.tree.BaseNode._get_code_for_children',
+        'parso.utils.python_bytes_to_unicode']
 
 
 def run(report):
+    verify_keys(report, KEYS)
+    report.assume("tree side only: under wf(tree) and tile(tree, G) (every leaf's prefix/value are adjacent slices of the input "
+                  "G, consecutive children adjacent) get_code of every node is the slice it spans; that the tokenizer and "
+                  "the parser *establish* tile (split_lines tiling, tokenize_lines tiling, one leaf per token, suite "
+                  "INDENT/DEDENT removal, param regrouping) is not discharged deductively: bounded stand-in",
+                  "slice normal form: G[a:a+n] + G[a+n:a+n+m] = G[a:a+n+m] is applied by the VC generator when the solver "
+                  "proves adjacency and bounds (rule of pv/engine.py concat)")
     run_bounded(report, ['parse', 'tok', 'fstr'])
